@@ -607,6 +607,7 @@ class _WidgetRun:
         self.scen, self.res = scen, res
         self.log = EventLog(keep=bool(os.environ.get("VERIF_KEEP_LOG")))
         self.calls: list = []
+        self.reclick_armed = False
         self.urwid = urwid
         group: list = []
         self.widgets = [
@@ -632,6 +633,11 @@ class _WidgetRun:
     def handler(self, hid: int):
         def h(*args):
             self.calls.append((hid, args))
+            if self.reclick_armed and any(a is self.widgets[5] for a in args):
+                # the handler presses the button again while its click is still being delivered (a nested emit of the
+                # same signal by the same widget): every connected handler is called for it too
+                self.reclick_armed = False
+                self.widgets[5].keypress((12,), "enter")
 
         h.hid = hid
         return h
@@ -778,6 +784,8 @@ class _WidgetRun:
                         break
                 elif wi == 5:
                     how = a % 4
+                    reclick = how in (0, 1) and op.get("v", 0) % 3 == 0
+                    self.reclick_armed = reclick
                     if how == 0:
                         w.keypress((12,), "enter")
                         exp.append((5, "click", ()))
@@ -815,11 +823,18 @@ class _WidgetRun:
                 break
             want = []
             for ewi, name, args in exp:
+                seq = []
                 for c in self.conns:
                     if c[5] and c[0] == ewi and c[1] == name:
                         # (the list walkers are not widgets: they emit 'modified' without themselves as an argument)
                         tail = () if c[6] is None else (c[6],)
-                        want.append((c[2], (*c[3], *args, *tail) if ewi >= 6 else (*c[3], self.widgets[ewi], *args, *tail)))
+                        seq.append((c[2], (*c[3], *args, *tail) if ewi >= 6 else (*c[3], self.widgets[ewi], *args, *tail)))
+                if ewi == 5 and name == "click" and seq and wi == 5 and k == "act" and op.get("v", 0) % 3 == 0:
+                    # the first handler pressed the button again: a complete nested delivery, then the rest of the outer one
+                    seq = [seq[0], *seq, *seq[1:]]
+                    self.res.probe("handler_re_emits_the_signal_it_handles")
+                want.extend(seq)
+            self.reclick_armed = False
             got = list(self.calls)
             self.log.add("calls", [[h, len(a_)] for h, a_ in got])
             if exp:
@@ -879,6 +894,7 @@ class SignalsEngine(Engine):
         "widget_emission_checked",
         "radio_group_cascade",
         "constructor_connection_disconnected_by_arguments",
+        "handler_re_emits_the_signal_it_handles",
     )
     reducible = ("ops", "behaviours")
 
